@@ -44,6 +44,9 @@ class ExpiryMode(vlib.Mode):
             # the boundary: a code minted a second before the expiry and presented INSIDE the second that begins at the expiry (exp - now == 0)
             specs.append(f"1:{rng.choice([100, 400, 700])}:late")
             specs.append(f"{rng.choice([1, 2])}:{rng.choice([150, 600])}:busyrx")    # a connection that keeps RECEIVING must expire on time too
+            if len(cases) < (1 if tier == "quick" else 3):
+                # a writer that sends once and then stays silent for longer than any of the relay's I/O waits except the pong wait
+                specs.append(f"{rng.choice([12, 13])}:{rng.choice([100, 500, 900])}:sendquiet")
             cases.append(["batch " + " ".join(specs)])
         if tier == "thorough":
             cases.append(["idle 75 70"])
